@@ -650,7 +650,8 @@ def is_subdir(base_path, test_path, trailing_slash=False, wildcards=False):
             test_path += '/'
 
     if wildcards:
-        return fnmatch.fnmatchcase(test_path, base_path)
+        # The pattern names a directory: what is below it matches too.
+        return fnmatch.fnmatchcase(test_path, base_path + '*')
     else:
         return test_path.startswith(base_path)
 
